@@ -186,3 +186,25 @@ Definition merge_prob (bias : bool) (Wcur Wnew : Q) : Q :=
 Definition leaf_keys (n : nat) : list Z := map Z.of_nat (seq 0 n).
 (* the variant that hands the same key to every leaf *)
 Definition leaf_keys_shared (n : nat) : list Z := repeat (-1)%Z n.
+
+(* ------------------------------------------------------------------------------------------ *)
+(* _Sampler.generate_n_samples: the chain is the iteration of one transition on the core state
+   (key, position); the returned core state is the one after the last transition:
+     def amend_chain(idx, state):
+         chain, core_state = state
+         tree, core_state = self.sample_next_state( *core_state)
+         chain = self.update_chain(chain, idx, tree)
+         return chain, core_state
+     chain, core_state = fori_loop(0, num_samples, amend_chain, (chain, (key, initial_position)))
+     return chain, core_state
+   with sample_next_state(key, pos): `key, k1, k2 = random.split(key, 3)` ... `return tree, (key, new_position)`. *)
+Section Chain.
+  Variables (St Smp : Type) (next : St -> Smp * St).
+  Fixpoint chain_run (n : nat) (st : St) : list Smp * St :=
+    match n with
+    | 0%nat => ([], st)
+    | S n' => let '(x, st1) := next st in let '(xs, st2) := chain_run n' st1 in (x :: xs, st2)
+    end.
+End Chain.
+(* number of `key = random.split(key, 3)[0]` advances the returned key is away from the key passed in *)
+Definition key_advances (num_samples : nat) : nat := num_samples.
